@@ -346,13 +346,18 @@ func parseBlock(c *casketfile.Dispenser, u *staticUpstream, hasSrv bool) error {
 		if !c.NextArg() {
 			return c.ArgErr()
 		}
-		policyCreateFunc, ok := supportedPolicies[c.Val()]
+		policyName := c.Val()
+		policyCreateFunc, ok := supportedPolicies[policyName]
 		if !ok {
 			return c.ArgErr()
 		}
 		var args []string
 		for c.NextArg() {
 			args = append(args, c.Val())
+		}
+		if policyName == "header" && len(args) == 0 {
+			// without a header name the policy never selects a backend
+			return c.ArgErr()
 		}
 		u.Policy = policyCreateFunc(args)
 	case "fallback_delay":
